@@ -10,6 +10,7 @@ import (
 	"golang.org/x/tools/go/ssa"
 
 	"sheensverif/internal/flow"
+	"sheensverif/internal/nilc"
 	"sheensverif/internal/prog"
 	"sheensverif/internal/ssau"
 )
@@ -41,13 +42,15 @@ func ifaceParam(f *ssa.Function) *ssa.Parameter {
 }
 
 func C04(c *Ctx) {
-	c.R.Explanation = "Decides structural necessary conditions of the documented transition rule on the SSA form of Spec.Step, Branches.consider and Branch.try: (R1) branches are tried in ascending slice order and the first non-nil result or error leaves the loop; (R2) with a guard the bindings of the next state derive only from the guard execution's non-nil Bs, without a guard only from the single match result — the input bindings and the raw candidate never become the result; (R3) the 'consumed' flag is exactly Type==\"message\", Stride.Consumed is stored only under it, the value matched against is the pending message under the flag and the current bindings otherwise, a missing message returns before any branch is tried, and the branching-type constants form one set; (R4) the action runs before the branches and on its success the bindings given to branch evaluation are the execution's Bs; (R5) the branch target is resolved from the same bindings that become the next state's bindings; (R6) no 'no match' exit precedes the matcher: every plain nil-state return of try is after the Match call (or on the pattern-less path). (R7) an ECMAScript guard that rejects, or an action that fails, cannot have changed the current bindings in place, because nothing reachable from them is reachable from what the script is given. Agreement with a reference interpreter on generated specs is not decided."
+	c.R.Explanation = "Decides structural necessary conditions of the documented transition rule on the SSA form of Spec.Step, Branches.consider and Branch.try: (R1) branches are tried in ascending slice order and the first non-nil result or error leaves the loop; (R2) with a guard the bindings of the next state derive only from the guard execution's non-nil Bs, without a guard only from the single match result — the input bindings and the raw candidate never become the result; (R3) the 'consumed' flag is exactly Type==\"message\", Stride.Consumed is stored only under it, the value matched against is the pending message under the flag and the current bindings otherwise, a missing message returns before any branch is tried, and the branching-type constants form one set; (R4) the action runs before the branches and on its success the bindings given to branch evaluation are the execution's Bs; (R5) the branch target is resolved from the same bindings that become the next state's bindings; (R6) no 'no match' exit precedes the matcher: every plain nil-state return of try is after the Match call (or on the pattern-less path). (R7) an ECMAScript guard that rejects, or an action that fails, cannot have changed the current bindings in place, because nothing reachable from them is reachable from what the script is given. (R8) in the ECMAScript interpreter, wherever the script's result is known to be an object (the map case of the result conversion), the bindings that leave that case are never the nil constant: nil bindings mean 'the guard rejected'. (R9) no function of package core assigns Spec.ActionErrorNode or Spec.ActionErrorBranches of an existing spec: where a failed action takes the machine is the spec author's setting, which Step reads at run time. Agreement with a reference interpreter on generated specs is not decided."
 	c.R.Rule("C04-R1", "E3", "listed order, first success wins", 3)
 	c.R.Rule("C04-R2", "E5", "guard gating", 2)
 	c.R.Rule("C04-R3", "E5+E6", "consumption discipline", 5)
 	c.R.Rule("C04-R4", "E5", "action result replaces bindings", 2)
 	c.R.Rule("C04-R5", "E5", "target resolved from the resulting bindings", 1)
 	c.R.Rule("C04-R6", "E3", "only the matcher and the guard decide a branch", 2)
+	c.R.Rule("C04-R8", "E3", "a script that returns an object yields non-nil bindings (an accepting guard is not read as a rejecting one)", 1)
+	c.R.Rule("C04-R9", "E7", "who may write: the engine never assigns the spec's action-error routing settings", 1)
 	c.R.Rule("C04-R7", "E1", "a guard or action cannot change the current bindings in place (scripts see copies)", 1)
 	step := c.fn("core", "Spec", "Step")
 	consider := c.fn("core", "Branches", "consider")
@@ -62,6 +65,26 @@ func C04(c *Ctx) {
 		if c.scriptIsolation("C04-R7", ea, true) == 0 {
 			c.R.Break("C04-R7: no value handed to the script runtime found")
 		}
+	}
+	// ------------------------------------------------------------ R8
+	c04ObjectResult(c)
+	// ------------------------------------------------------------ R9: how action errors are routed is the spec author's setting
+	{
+		var bad []string
+		nread := 0
+		for _, f := range c.P.FuncsIn("core") {
+			for _, fld := range []string{"ActionErrorNode", "ActionErrorBranches"} {
+				for _, st := range storesTo(f, "Spec", fld) {
+					if _, _, base, _ := ssau.FieldOf(st.Addr); localFresh(base) {
+						continue // building a new Spec value (Copy): judged by C12-R5
+					}
+					bad = append(bad, fmt.Sprintf("%s assigns Spec.%s (%s)", fname(f), fld, c.pos(st)))
+				}
+				nread += len(nilc.FieldLoads([]*ssa.Function{f}, prog.Abs("core"), "Spec", fld))
+			}
+		}
+		sort.Strings(bad)
+		c.R.Check(len(bad) == 0 && nread >= 2, "C04-R9", "core: the action-error routing settings are only read", c.P.Pos(step.Pos()), fmt.Sprintf("%d reads, no assignment of Spec.ActionErrorNode / Spec.ActionErrorBranches in package core", nread), strings.Join(bad, "; ")+": the engine changes where a failed action takes the machine (the setting is the spec's, and Step reads it at run time)")
 	}
 	// ------------------------------------------------------------ R1 (consider)
 	var tryCalls []*ssa.Call
@@ -736,4 +759,94 @@ func patternlessOnly(fn *ssa.Function, b, avoid *ssa.BasicBlock) bool {
 		return !flow.Reachable(present, b, map[*ssa.BasicBlock]bool{avoid: true})
 	}
 	return false
+}
+
+// c04ObjectResult: C04-R8.
+func c04ObjectResult(c *Ctx) {
+	exec := c.P.Func("interpreters/ecmascript", "Interpreter", "Exec")
+	if exec == nil {
+		return
+	}
+	n := 0
+	for _, f := range pkgClosure(exec) {
+		if prog.PkgOf(f) != "interpreters/ecmascript" {
+			continue
+		}
+		var tas []*ssa.TypeAssert
+		ssau.Instrs(f, func(in ssa.Instruction) {
+			ta, ok := in.(*ssa.TypeAssert)
+			if !ok || !ta.CommaOk {
+				return
+			}
+			mt, isMap := ta.AssertedType.Underlying().(*types.Map)
+			if !isMap || !types.IsInterface(mt.Elem()) {
+				return
+			}
+			if _, named := ta.AssertedType.(*types.Named); named {
+				return // match.Bindings: a host value, not a script object
+			}
+			// only result conversions: the function returns or stores Bindings
+			tas = append(tas, ta)
+		})
+		for _, ta := range tas {
+			inCase := func(b *ssa.BasicBlock) bool {
+				for _, fc := range flow.FactsAt(b) {
+					if ex, isEx := fc.Cond.(*ssa.Extract); isEx && ex.Tuple == ssa.Value(ta) && ex.Index == 1 && fc.True {
+						return true
+					}
+				}
+				return false
+			}
+			var bad []string
+			uses := 0
+			ssau.Instrs(f, func(in ssa.Instruction) {
+				switch x := in.(type) {
+				case *ssa.Phi:
+					if !isBindingsT(x.Type()) {
+						return
+					}
+					for i, e := range x.Edges {
+						if inCase(x.Block().Preds[i]) && !inCase(x.Block()) {
+							uses++
+							if ssau.IsNilConst(e) {
+								bad = append(bad, "the bindings that leave the object case can be nil ("+c.pos(x.Block().Preds[i].Instrs[len(x.Block().Preds[i].Instrs)-1])+")")
+							}
+						}
+					}
+				case *ssa.Store:
+					if ssau.IsField(x.Addr, prog.Abs("core"), "Execution", "Bs") && inCase(x.Block()) {
+						uses++
+						if ssau.IsNilConst(x.Val) {
+							bad = append(bad, "nil bindings stored in the object case ("+c.pos(x)+")")
+						}
+					}
+				case *ssa.Return:
+					if !inCase(x.Block()) {
+						return
+					}
+					for i, r := range x.Results {
+						if isBindingsT(r.Type()) {
+							uses++
+							errNil := true
+							if i+1 < len(x.Results) {
+								errNil = ssau.IsNilConst(x.Results[len(x.Results)-1])
+							}
+							if ssau.IsNilConst(r) && errNil {
+								bad = append(bad, "nil bindings returned without an error in the object case ("+c.pos(x)+")")
+							}
+						}
+					}
+				}
+			})
+			if uses == 0 {
+				continue // not a result conversion
+			}
+			n++
+			sort.Strings(bad)
+			c.R.Check(len(bad) == 0, "C04-R8", fmt.Sprintf("%s: object result #%d gives non-nil bindings", fname(f), n), c.pos(ta), "every value that leaves the map case is a converted map", strings.Join(bad, "; ")+": a guard that accepts by returning an empty object would be read as rejecting, and an action's {} would lose the restore of permanent bindings")
+		}
+	}
+	if n == 0 {
+		c.R.Break("C04-R8: no conversion of an object result to bindings found in the interpreter")
+	}
 }
